@@ -1,0 +1,13 @@
+//go:build verif
+
+// Contracts for package autofile, checked by /verif/govc (comment-only; see /verif/DESIGN.md).
+package autofile
+
+// ---------------------------------------------------------------- C15: the log file is only ever appended to
+// The file is closed and re-opened periodically; every (re)open must be in append mode, otherwise the
+// next write starts at offset 0 and overwrites the log (O_APPEND is 0x400 on Linux).
+//@ func (af *AutoFile) openFile() (err error)
+//@   for C15
+//@   requires af != nil
+//@   modifies *
+//@   atcall OpenFile requires [appendMode] (flag & 1024) == 1024 && (flag & 512) == 0
